@@ -35,7 +35,7 @@ def lib_call(op, fn, *a, **k):
     try:
         return fn(*a, **k)
     except (kernel.Deadlock, kernel.StepCap, kernel.Overdue, kernel.SimAbort, seams.UnseamedNondeterminism,
-            seams.BusyWait, _c.Runaway):
+            seams.BusyWait, _c.Runaway, _c.StepExhausted):
         raise
     except Exception as e:  # noqa
         raise LibRaised(op, e) from e
